@@ -817,8 +817,10 @@ Section Reader.
     (forall r ref, Agree r ref -> Rel r ref) ->
     (forall w r ref, Rel r ref -> Rel (lift w r) (shift w ref)) ->
     forall (ro ra : list byte -> rres) depth lv, 0 <= depth <= 10000 ->
-    (forall b r0, isb 123 b = true -> depth < 10000 -> Rel (ro (b :: r0)) (tref true depth (b :: r0))) ->
-    (forall b r0, isb 91 b = true -> depth < 10000 -> Rel (ra (b :: r0)) (tref false depth (b :: r0))) ->
+    (forall b r0, (length (b :: r0) <= length lv)%nat -> isb 123 b = true -> depth < 10000 ->
+                  Rel (ro (b :: r0)) (tref true depth (b :: r0))) ->
+    (forall b r0, (length (b :: r0) <= length lv)%nat -> isb 91 b = true -> depth < 10000 ->
+                  Rel (ra (b :: r0)) (tref false depth (b :: r0))) ->
     Rel (MEM ro ra depth lv) (vref depth lv).
   Proof.
     intros Rel RA RL ro ra depth lv DP HO HA. unfold ValueReader.member, vref.
@@ -866,3 +868,114 @@ Section Reader.
     rewrite <- E. exact SC.
   Qed.
 End Reader.
+
+(** * 6. Helpers for the traversal *)
+
+Lemma tok_null : forall b, (tok_type b =? NullType) = isb 110 b.
+Proof. destruct b; reflexivity. Qed.
+
+Lemma first_is_null_spec : forall data,
+  first_is_null data = match skipn (ws data) data with b :: _ => isb 110 b | [] => false end.
+Proof.
+  intros data. unfold first_is_null. pose proof (next_token_type_spec data) as NT. cbv zeta in NT.
+  fold (ws data) in NT. destruct (skipn (ws data) data) as [|b r]; rewrite NT; [reflexivity|apply tok_null].
+Qed.
+
+(** the two ways [members_ref] succeeds: the literal null (no members), or an array / object whose
+    members lie after the opening bracket and are values of the unbounded reference *)
+Lemma members_ref_cases : forall (obj : bool) data ms e, members_ref obj data = Some (ms, e) ->
+  exists b r, skipn (ws data) data = b :: r /\
+    ((isb 110 b = true /\ ms = []) \/
+     (isb (if obj then 123 else 91) b = true /\
+      Forall (fun m => 1 <= fst m /\ exists n, value_len (len data) (length data + 2) 0 (skipn (Z.to_nat (fst m)) data) = Some n) ms)).
+Proof.
+  intros obj data ms e M. pose proof (members_ref_values obj data ms e M) as MV. unfold members_ref in M.
+  destruct (skipn (ws data) data) as [|b r] eqn:L.
+  { unfold lit_ref in M. cbn in M. discriminate. }
+  exists b, r. split; [reflexivity|].
+  destruct (lit_ref lit_null (b :: r)) as [n|] eqn:LN.
+  { left. inversion M; subst. split; [|reflexivity]. unfold lit_ref in LN. cbn [is_prefix lit_null] in LN.
+    unfold isb. destruct (bz b =? bz x6e) eqn:B; [exact B|discriminate]. }
+  right. destruct (isb (if obj then 123 else 91) b) eqn:OB; [|discriminate]. split; [reflexivity|].
+  destruct (skipn (ws r) r) as [|c r1]; [discriminate|].
+  destruct (isb (if obj then 125 else 93) c); [inversion M; constructor|].
+  apply members_from_pos in M. rewrite Forall_forall in *. intros m IN. split; [|apply MV; exact IN].
+  specialize (M m IN). cbn in M. lia.
+Qed.
+
+Lemma members_ref_end_ge : forall obj data ms e, members_ref obj data = Some (ms, e) ->
+  exists n, e = Z.of_nat (ws data + n).
+Proof.
+  intros obj data ms e M. apply members_ref_end in M. unfold skip_unb, skip_ref_md in M.
+  destruct (value_len _ _ _ _) as [n|]; [|discriminate]. cbn in M. inversion M. eauto.
+Qed.
+
+Lemma AllGood_dec : forall (good : list call -> bool) final,
+  AllGood good [] final \/ exists L, suffix L final /\ L <> [] /\ good L = false.
+Proof.
+  intros good. induction final as [|c rest IH].
+  - left. intros L S LL. apply suffix_nil_inv in S. subst. cbn in LL. lia.
+  - destruct IH as [AG|(L & S & NE & G)].
+    + destruct (good (c :: rest)) eqn:G.
+      * left. intros L [pre E] LL. destruct pre as [|x pre].
+        -- cbn in E. subst L. exact G.
+        -- cbn in E. inversion E; subst. apply AG; [exists pre; reflexivity|exact LL].
+      * right. exists (c :: rest). split; [apply suffix_refl|]. split; [discriminate|exact G].
+    + right. exists L. split; [|auto]. eapply suffix_trans; [exact S|apply suffix_cons].
+Qed.
+
+Lemma in_suffix : forall {A} (c : A) l, In c l -> exists rest, suffix (c :: rest) l.
+Proof. intros A c l IN. apply in_split in IN. destruct IN as (l1 & l2 & ->). exists l2, l1. reflexivity. Qed.
+
+Lemma suffix_head_in : forall {A} (c : A) rest l, suffix (c :: rest) l -> In c l.
+Proof. intros A c rest l [pre ->]. apply in_or_app. right. left. reflexivity. Qed.
+
+Lemma mapM_map : forall {A B C} (g : A -> B) (f : B -> option C) l, mapM f (map g l) = mapM (fun x => f (g x)) l.
+Proof. intros A B C g f. induction l as [|x r IH]; [reflexivity|]. cbn. rewrite IH. reflexivity. Qed.
+
+Lemma mapM_ext_in : forall {A B} (f g : A -> option B) l, (forall x, In x l -> f x = g x) -> mapM f l = mapM g l.
+Proof.
+  intros A B f g. induction l as [|x r IH]; intros H; [reflexivity|]. cbn. rewrite (H x (or_introl eq_refl)).
+  rewrite IH; [reflexivity|]. intros y IN. apply H. right. exact IN.
+Qed.
+
+Lemma mapM_none : forall {A B} (f : A -> option B) l x, In x l -> f x = None -> mapM f l = None.
+Proof.
+  intros A B f. induction l as [|y r IH]; intros x IN FX; [destruct IN|]. cbn. destruct IN as [->|IN].
+  - rewrite FX. reflexivity.
+  - rewrite (IH x IN FX). destruct (f y); reflexivity.
+Qed.
+
+Lemma mapM_some_in : forall {A B} (f : A -> option B) l ys x, mapM f l = Some ys -> In x l -> exists y, f x = Some y.
+Proof.
+  intros A B f. induction l as [|z r IH]; intros ys x M IN; [destruct IN|]. cbn in M.
+  destruct (f z) as [y|] eqn:FZ; [|discriminate]. destruct (mapM f r) as [ys'|] eqn:MR; [|discriminate].
+  destruct IN as [->|IN]; [eauto|]. eapply IH; eauto.
+Qed.
+
+(** collecting array members whose reads all succeed *)
+Lemma collect_arr_ok : forall (read1 : call -> rres) (G : call -> option jv) calls acc,
+  (forall c, In c calls -> exists v p, read1 c = Some (v, p, None) /\ G c = Some v) ->
+  exists vs, mapM G calls = Some vs /\ collect_arr read1 calls acc = Some (acc ++ vs).
+Proof.
+  intros read1 G. induction calls as [|c r IH]; intros acc H.
+  - exists []. cbn. rewrite app_nil_r. auto.
+  - destruct (H c (or_introl eq_refl)) as (v & p & R & GV).
+    destruct (IH (acc ++ [v]) ltac:(intros c' IN; apply H; right; exact IN)) as (vs & M & C).
+    exists (v :: vs). cbn. rewrite GV, M, R, C, <- app_assoc. auto.
+Qed.
+
+(** collecting object members whose reads all succeed and whose raw keys decode *)
+Lemma collect_obj_ok : forall (read1 : call -> rres) (G : call -> option jv) calls acc,
+  (forall c, In c calls -> (exists v p, read1 c = Some (v, p, None) /\ G c = Some v) /\
+                           exists out, decode_content (c_key c) = Some out) ->
+  exists vs, mapM G calls = Some vs /\
+             collect_obj 10000 unescape_spec read1 calls acc = build_obj (combine (map c_key calls) vs) acc /\
+             exists m, build_obj (combine (map c_key calls) vs) acc = Some m.
+Proof.
+  intros read1 G. induction calls as [|c r IH]; intros acc H.
+  - exists []. cbn. eauto.
+  - destruct (H c (or_introl eq_refl)) as ((v & p & R & GV) & (out & D)).
+    destruct (IH (obj_set acc out v) ltac:(intros c' IN; apply H; right; exact IN)) as (vs & M & C & (m & B)).
+    exists (v :: vs). cbn. rewrite GV, M, R, (key_of_correct _ _ D), D, C. eauto.
+Qed.
